@@ -68,6 +68,13 @@ pub fn catalog() -> Arc<Cat> {
         rd.extend(std::iter::repeat(b'a' + i).take(199));
         z.add(&big, Type::TXT, Class::IN, ttl, <&Rdata>::try_from(&rd[..]).unwrap()).unwrap();
     }
+    // wildcard CNAMEs whose chain FAILS: to a name that does not exist (NXDOMAIN) and into a loop (SERVFAIL); the source
+    // of synthesis is recorded before the chain is followed, but errors are never keyed by a name
+    for (owner, tgt) in [("*.cn.example.", vec![&b"nowhere"[..], &b"example"[..]]), ("*.cl.example.", vec![&b"x"[..], &b"cl"[..], &b"example"[..]])] {
+        let o: Box<Name> = owner.parse().unwrap();
+        let t = wire(&tgt);
+        z.add(&o, Type::CNAME, Class::IN, ttl, <&Rdata>::try_from(&t[..]).unwrap()).unwrap();
+    }
     let wc: Box<Name> = "*.cw.example.".parse().unwrap();
     let target = wire(&[b"a", b"example"]);
     z.add(&wc, Type::CNAME, Class::IN, ttl, <&Rdata>::try_from(&target[..]).unwrap()).unwrap();
@@ -83,6 +90,8 @@ pub fn catalog() -> Arc<Cat> {
 ///   z<label>  `<label>.w.example.` TXT  -> NOERROR, no data, synthesized from `*.w.example.`
 ///   c<label>  `<label>.cw.example.` A   -> NOERROR, CNAME synthesized from `*.cw.example.` (-> a.example.)
 ///   b<label>  `<label>.big.example.` ANY -> NOERROR from `*.big.example.` (4 x 200-octet TXT: truncated over UDP without EDNS)
+///   g<label>  `<label>.cn.example.` A   -> NXDOMAIN through the wildcard CNAME `*.cn.example.` -> nowhere.example.
+///   h<label>  `<label>.cl.example.` A   -> SERVFAIL through the looping wildcard CNAME `*.cl.example.` -> x.cl.example.
 ///   x<label>  `<label>.nx.example.` A   -> NXDOMAIN
 ///   (<label> may be several labels separated by '.')
 ///   r<label>  `<label>.other.` A        -> REFUSED
@@ -111,6 +120,8 @@ pub fn query(kind: &str, edns: bool, id: u16) -> Vec<u8> {
         "b" => (Some(with(&[b"big", b"example"])), 255, 0, 1),
         "z" => (Some(with(&[b"w", b"example"])), 16, 0, 1),
         "c" => (Some(with(&[b"cw", b"example"])), 1, 0, 1),
+        "g" => (Some(with(&[b"cn", b"example"])), 1, 0, 1),
+        "h" => (Some(with(&[b"cl", b"example"])), 1, 0, 1),
         "x" => (Some(with(&[b"nx", b"example"])), 1, 0, 1),
         "r" => (Some(with(&[b"other"])), 1, 0, 1),
         "f" => (None, 0, 0, 0),
